@@ -19,14 +19,14 @@ from ..runner import Res
 from ..y0util import V, snapshot, to_y0
 
 TITLE = "d-separation verdicts equal true m-separation in the mixed graph"
-HASH_SEEDS = {"quick": [0, 1], "thorough": [0, 1, 2, 3]}
+HASH_SEEDS = {"quick": [0, 1], "thorough": [0, 1, 2]}
 
 
 @lru_cache(maxsize=None)
 def _universe(tier):
     uni = [g for n in (2, 3, 4) for g in enum_L(n)]
     if tier == "thorough":
-        uni += [g for g in enum_O(5, max_edges=6)]
+        uni += [g for g in enum_O(5, max_edges=5)]
     return uni
 
 
@@ -112,7 +112,7 @@ def explore_builder(res: Res, first, tier):
 def describe(tier):
     return {
         "bound": "graphs: all labelled ADMGs L(2), L(3), L(4) (34 958 graphs)"
-        + (" + O(5, <=6 edges) ordered five-node ADMGs" if tier == "thorough" else "")
+        + (" + O(5, <=5 edges) ordered five-node ADMGs" if tier == "thorough" else "")
         + "; every ordered pair (a,b), every conditioning set C; insertion orders: all node permutations x reversed "
         "edge lists for n<=3, "
         + ("all 24 node permutations for n=4 (hash seed 0), " if tier == "thorough" else "")
@@ -144,6 +144,8 @@ def _orders(g: G, tier, hs):
         yield tuple(reversed(g.nodes)), True
     elif hs == 0:
         yield g.nodes, False
+    elif n == 5:
+        return  # five-node graphs are explored under hash seed 0 only
     elif tier == "thorough" or all(u < v for u, v in g.di):
         # quick: other hash seeds revisit only the name-ordered sub-family O(4), with everything reversed
         yield tuple(reversed(g.nodes)), True
